@@ -25,7 +25,7 @@ from ..util import Def, make_cfg, pmap, split_defs
 MANIFEST = {
     "technique": "TLA+ spec of the GEL rules (observe/tick/merge/split/promotion, gate) on an exact dyadic grid model-checked with TLC over configuration alphabets and bounded histories; every transition replayed on the real gel functions incl. all permutations of the item list; random long float histories and real orchestrator turns validated by TLC trace checking with IEEE-754 order encoding",
     "text": "Bounded exhaustive model checking of the documented GEL rules with the ten C18 clauses as invariants / action properties (clamp bounds, monotone decay, drop exactly below the floor, one canonically keyed edge per unordered pair, pair cap, top-k above threshold, listing-order insensitivity, maintenance only annotates/attaches, idempotent promotion, closed gate = untouched), bound to the code by transition-coverage replay on observe_retrieval / tick / *_candidates / apply_* with a plain dict state (edges, nodes, meta compared after every operation), by trace validation of seeded random long histories with arbitrary float scores, alphas, clamp ranges and half-lives (weights compared exactly through their bit patterns), and by real run_turn executions with graph.enabled on and off.",
-    "note": "Small scope for the exhaustive part: <= 4 base ids (+ their concept ids), bags of <= 4 items, histories <= 5 operations, weights on a 2^-20 grid with alpha in {1/8, 1/2}, decay factors 2^-n. The increment rule (additive +alpha, proportional +alpha(1-min(|w|,1))) is taken from the module and its unit tests; docs/m11/overview.md summarises a score-weighted variant. Ids containing the key separator are outside the alphabet (two different pairs could share a key). Concept attachment edges are bounded by the attach range [-1,1], not by the update clamp. Orderings of merge candidates that hinge on 'size ASC' (docs) vs 'size DESC' (module) are guarded out. Clamp ranges that exclude 0, alpha=inf and floor=NaN (formerly accepted, each broke WithinClamp) are rejected by the repaired validator; the check asserts the rejection and re-runs the reproducer if one is accepted again.",
+    "note": "Small scope for the exhaustive part: <= 4 base ids (+ their concept ids), bags of <= 4 items, histories <= 5 operations, weights on a 2^-20 grid with alpha in {1/8, 1/2}, decay factors 2^-n. The increment rule (additive +alpha, proportional +alpha(1-min(|w|,1))) is taken from the module and its unit tests; docs/m11/overview.md summarises a score-weighted variant. Ids containing the key separator are outside the alphabet (two different pairs could share a key). Orderings of merge candidates that hinge on 'size ASC' (docs) vs 'size DESC' (module) are guarded out. Clamp ranges that exclude 0, alpha=inf and floor=NaN (formerly accepted, each broke WithinClamp) are rejected by the repaired validator; the check asserts the rejection and re-runs the reproducer if one is accepted again.",
 }
 
 D = 1 << 20
@@ -605,6 +605,10 @@ def check(run) -> None:
                      InitGraphs=Def(tla_set(["<<>>", chain4])), ItemIds=seq_def([2, 7] if q else [1, 2, 7]), MaxItems=2,
                      Dts=[1], MaxDepth=2 if q else 3)
     run_family(run, "maint4", mt)
+    # an attachment weight outside the clamp range (both accepted by the validator: attach_weight in [-1, 1])
+    M3 = maint(D // 4, 2, 2, 1, D // 8, 2, 4, D, 2)
+    run_family(run, "maint_clamp", dict(mt, Clamps=clamp_def([(-D // 2, D // 2)] if q else [(-D // 2, D // 2), (0, 3 * D // 4)]),
+                                        Maints=Def(tla_set([M3])), MaxDepth=2))
     if not q:
         deep = base_consts(Modes=["proportional"], AlphaDens=[2], Clamps=clamp_def(CLAMPS_0 + CLAMPS_1[:1]), Floors=[D // 8],
                            PairCaps=[1, 64], ItemIds=seq_def([1, 2]), MaxItems=2, Dts=[1, 2],
@@ -620,7 +624,7 @@ def check(run) -> None:
         "small scope for the exhaustive part: <= 4 base ids, bags <= 4 items, histories <= 5 operations, 2^-20 grid",
         "ids do not contain the key separator '→' (two different pairs could otherwise share one key)",
         "a transition whose exact result leaves the grid is not generated (double arithmetic stays exact on every replayed case)",
-        "WithinClamp binds co-activation edges to [clamp_min, clamp_max]; concept attachment edges to the attach range [-1, 1]",
+        "WithinClamp binds every edge weight, concept attachment edges included, to [clamp_min, clamp_max]",
         "configurations are passed through the real validate_config; a rejected configuration is outside the quantifier (guarded out)",
         "config alphabets contain validator-accepted settings only (clamp_min <= 0 <= clamp_max, finite scalars); the three settings that used to be accepted and broke WithinClamp are asserted to be rejected",
     ]
